@@ -14,7 +14,10 @@ WEAK_SOLO = {"RelockKeepsRound": "LockRespected", "PolProposalOverridesLock": "L
              "ProposeFreshDespiteValid": "ProposalCarriesValid"}
 
 
-SLOW_WEAK = {"RelockKeepsRound", "UnlockOnOlderPolka", "PolProposalOverridesLock"}
+# weak switch -> (rounds, adversarial values, corridor of TMConsensusSolo)
+GUIDED = {"RelockKeepsRound": (3, ["Z0", "Z1"], "CorridorRelock"),
+          "UnlockOnOlderPolka": (3, ["Z0", "Z1"], "CorridorOlder"),
+          "PolProposalOverridesLock": (1, ["Z0", "Z1"], "CorridorPol")}
 SOLO_ATTACKS = os.path.join(core.VERIF, "spec", "attacks", "C02")
 
 
@@ -112,21 +115,29 @@ def run(ctx):
     # replayed on the real node below (uneventful on correct code)
     nonvac = {}
     attack_scheds = []
-    lib = load_solo_attacks()
     for weak, inv in WEAK_SOLO.items():
-        if quick and weak in SLOW_WEAK and weak not in lib:
-            nonvac[weak] = ["(not in the committed library; refutation runs in the thorough tier)"]
-            continue
-        if quick and weak in SLOW_WEAK and weak in lib:
-            # the counterexample search for this switch takes minutes: quick replays the committed schedule
-            # (spec/attacks/C02), thorough re-derives it
-            attack_scheds.append({"id": 800000 + len(attack_scheds), "steps": lib[weak]["steps"]})
-            nonvac[weak] = ["(committed attack schedule; refutation re-run in the thorough tier)"]
-            continue
-        mrw, vals = (3, ["Z0", "Z1"]) if weak == "RelockKeepsRound" else (2, ["Z0"])
-        m2 = cc.solo_mc(ctx, "C02_weak_" + weak, info, me, mrw, vals, weak=[weak])
-        rw = ctx.tlc(m2, m2 + ".cfg", simulate="num=100000000", depth=70, seed=ctx.seed, timeout=400 if quick else 1500,
-                     label="weak_" + weak)
+        if weak in GUIDED:
+            # random simulation needs > 25 min for these: breadth-first inside a hand-guided corridor (state constraint of
+            # TMConsensusSolo that restricts the adversary to the moves of the attack pattern), seconds
+            mrw, vals, corridor = GUIDED[weak]
+            m2 = cc.solo_mc(ctx, "C02_weak_" + weak, info, me, mrw, vals, weak=[weak], constraint=corridor, noenv=("commit",))
+            rw = ctx.tlc(m2, m2 + ".cfg", timeout=900, label="weak_" + weak, heap="8g")
+            # thorough: the real spec explored inside the same corridor (complete) has no violation
+            if quick:
+                found = [x["name"] for x in rw.violations]
+            m3 = None if quick else cc.solo_mc(ctx, "C02_corr_" + weak, info, me, mrw, vals, constraint=corridor, noenv=("commit",))
+            if m3:
+                rc_ = ctx.tlc(m3, m3 + ".cfg", timeout=1800, label="corridor_" + weak, heap="8g")
+                if rc_.violations or rc_.errors:
+                    ctx.save_log("corridor_" + weak, rc_.out)
+                    raise Undecided("the real solo spec inside corridor %s: %s" % (corridor, (rc_.violations or rc_.errors)[:1]))
+                tot["states"] += rc_.distinct
+                tot["transitions"] += rc_.generated
+            tot["transitions"] += rw.generated
+        else:
+            m2 = cc.solo_mc(ctx, "C02_weak_" + weak, info, me, 2, ["Z0"], weak=[weak])
+            rw = ctx.tlc(m2, m2 + ".cfg", simulate="num=100000000", depth=70, seed=ctx.seed, timeout=400 if quick else 1500,
+                         label="weak_" + weak)
         found = [x["name"] for x in rw.violations]
         nonvac[weak] = found
         if inv not in found:
